@@ -162,6 +162,21 @@ def pyAnyM {α : Type} (p : α → R Bool) : List α → R Bool
 def pyForM {σ α : Type} (xs : List α) (init : σ) (body : σ → α → R σ) : R σ :=
   xs.foldlM body init
 
+/-- `while c: <body>` with the loop-carried variables as the state.  Python's loop need not terminate; the model runs at
+    most `fuel` iterations and then answers with the model-bound error `.fuel` (never a value). -/
+def pyWhile {σ : Type} : Nat → σ → (σ → R Bool) → (σ → R σ) → R σ
+  | 0, _, _, _ => .error .fuel
+  | f + 1, st, cond, body => do
+    if ← cond st then do
+      let st' ← body st
+      pyWhile f st' cond body
+    else pure st
+
+/-- the loop bound the table entries of translated bodies with a `while` are instantiated with.  (`xs.append(x)` is
+    translated as `xs ++ [x]`, quadratic in the driver, so the bound is far below `Eval.maxRange`; a longer loop makes the
+    driver answer `unmodelled`, and the harness skips the case.) -/
+def pyLoopFuel : Nat := 20000
+
 /-- builtin `max(xs)` on a tuple of numbers: the first maximal element; empty: `ValueError` -/
 def pyMaxOf (xs : List Val) : R Val :=
   match nums? xs with
